@@ -191,12 +191,52 @@ def run_requests(ctx, req_path, tag, timeout=1800):
     """implementation and model observations for a request file -> list of (req, impl, model)."""
     impl_path = os.path.join(ctx.work, tag + '.impl')
     model_path = os.path.join(ctx.work, tag + '.model')
-    rc, out = sh([HBIN, 'run', req_path, impl_path], timeout=timeout,
-                 env={'RAYON_NUM_THREADS': os.environ.get('RAYON_NUM_THREADS', '4')})
-    if rc != 0:
-        raise RuntimeError('harness run failed: ' + out[-2000:])
+    henv = {'RAYON_NUM_THREADS': os.environ.get('RAYON_NUM_THREADS', '4')}
+    rc, out = sh([HBIN, 'run', req_path, impl_path], timeout=timeout, env=henv)
     reqs = [l.rstrip('\n') for l in open(req_path) if l.strip()]
-    impls = [l.rstrip('\n') for l in open(impl_path)]
+    if rc != 0:
+        # the harness process died (an abort that catch_unwind cannot intercept: allocation failure, stack overflow, ...):
+        # bisect for the request that kills it, record that as the implementation's observation, and run the others
+        def dies(sub):
+            pth = os.path.join(ctx.work, tag + '.bisect')
+            with open(pth, 'w') as f:
+                f.write('\n'.join(sub) + '\n')
+            r, o = sh([HBIN, 'run', pth, pth + '.out'], timeout=timeout, env=henv)
+            return r != 0, o
+        # at most three killers are isolated (by bisection inside the first dying chunks); chunks that still die afterwards are
+        # left out of this run (no verdict for their requests)
+        killers, kept, kept_impl = {}, [], []
+        CH = 400
+        for c0 in range(0, len(reqs), CH):
+            chunk = reqs[c0:c0 + CH]
+            for _ in range(4):
+                d, o = dies(chunk)
+                if not d:
+                    kept += chunk
+                    kept_impl += [l.rstrip('\n') for l in open(os.path.join(ctx.work, tag + '.bisect.out'))]
+                    break
+                if len(killers) >= 3:
+                    break
+                lo, hi = 0, len(chunk)
+                while hi - lo > 1:
+                    mid = (lo + hi) // 2
+                    if dies(chunk[lo:mid])[0]:
+                        hi = mid
+                    else:
+                        lo = mid
+                d1, o1 = dies(chunk[lo:hi])
+                if not d1:
+                    break
+                msg = [l for l in o1.splitlines() if l.strip()]
+                killers[chunk[lo]] = 'i.abort=the process died: ' + (msg[0][:200] if msg else 'no message').replace('|', '/')
+                kept.append(chunk[lo])
+                kept_impl.append(killers[chunk[lo]])
+                chunk = chunk[:lo] + chunk[hi:]
+        if not killers:
+            raise RuntimeError('harness run failed: ' + out[-2000:])
+        reqs, impls = kept, kept_impl
+    else:
+        impls = [l.rstrip('\n') for l in open(impl_path)]
     # the Lean spec checkers see the implementation's answer: its integer encoding (`i.tok`)
     # is appended to the request after a separator token
     din_path = os.path.join(ctx.work, tag + '.din')
